@@ -527,7 +527,7 @@ class PandasModelBase(
             return True
         if len(column_names) < 1:
             return False
-        counts = table.groupby(column_names, observed=True).size()
+        counts = table.groupby(column_names, observed=True, dropna=False).size()
         return max(counts) <= 1
 
     # bigger stuff
